@@ -1,4 +1,8 @@
 pub mod c01;
 pub mod c02;
 pub mod c03;
+pub mod c04;
+pub mod c10;
 pub mod c14;
+pub mod c15;
+pub mod c16;
